@@ -25,7 +25,7 @@ type xmpSpec struct {
 }
 
 func checkC13(p *Prog, r *Report) {
-	r.Explain("The tokenizer's behaviour over all packets (look-ahead windows, quoting, white space) is a run-time matter and is not decided. Decided: NSTBL — the namespace and name tables are mutually inverse over the declared constants: IdentifyNamespace(String(ns)) == ns and IdentifyName(String(n)) == n for every declared constant, by constant folding of the tables (a property whose name is missing from either table is silently dropped); XDISPATCH — for every property of the independent table spec/xmp_props.json, the packet spelling is identified to a name constant, the namespace prefix dispatches in (*XMP).parser to the struct of that namespace, and that struct's parse method has a case for the constant that stores into the field(s) the table assigns; FORMS — attribute form and element form reach the per-namespace parsers through the same function: every call of a parse method is in (*XMP).parser, and in readTag/readSeqTags every successful readAttribute and readTagValue is followed by xmp.parser on every path; QUOTE — wherever the tokenizer compares a byte with a quote constant the byte is at a constant position (the opening quote), and the byte read there is what the search for the closing quote looks for (bytes.IndexByte needle or comparison operand): a value delimited by one quote character may contain the other; RELIDX — an index returned by a search in x[a:] is relative to a: wherever it (or a sum containing it) indexes or slices x itself, a is part of the sum; XTOTAL — every index and slice in the functions of package xmp reachable from ParseXmp is proved in range by E3 with no credit for ParseXmp's recover frame: a panic at the edge of a look-ahead window turns a well-formed packet into an error (for C01 the same panic is contained; for this property it is a lost value); WINFIT — every look-ahead loop of the XMP reader (Peek(s) with s growing by a constant step) reaches, within the reader's buffer size, a window of at least 1027 bytes: a 1024-byte value with its delimiters is readable before ErrBufferFull ends the growth; ROOTSKIP — readRootTag keeps scanning when ReadSlice reports a full buffer without the start of the root element (bytes before the root element are skipped). FORMDEP — outside the tokenizer the attribute/element form of a property (property.pt) is read only under Name() == Rights or Title, the array properties whose rdf:li items carry attributes of their own; no simple property can be treated differently by form. DATEFALL — xmp.parseDate never reports an error before time.Parse with the plain layout 2006-01-02T15:04:05 (the only one accepting a zoneless value with any number of fractional digits) was tried. SEQEXIT — the loops of readTag and readSeqTags leave only on a callee error or a boolean answer of the tokenizer, never on an integer comparison (an item count). XSRC — the tokenizer look-ahead buffer is filled from the reader the caller passed, never from a length-limited view of it.")
+	r.Explain("The tokenizer's behaviour over all packets (look-ahead windows, quoting, white space) is a run-time matter and is not decided. Decided: NSTBL — the namespace and name tables are mutually inverse over the declared constants: IdentifyNamespace(String(ns)) == ns and IdentifyName(String(n)) == n for every declared constant, by constant folding of the tables (a property whose name is missing from either table is silently dropped); XDISPATCH — for every property of the independent table spec/xmp_props.json, the packet spelling is identified to a name constant, the namespace prefix dispatches in (*XMP).parser to the struct of that namespace, and that struct's parse method has a case for the constant that stores into the field(s) the table assigns; FORMS — attribute form and element form reach the per-namespace parsers through the same function: every call of a parse method is in (*XMP).parser, and in readTag/readSeqTags every successful readAttribute and readTagValue is followed by xmp.parser on every path; QUOTE — wherever the tokenizer compares a byte with a quote constant the byte is at a constant position (the opening quote), and the byte read there is what the search for the closing quote looks for (bytes.IndexByte needle or comparison operand): a value delimited by one quote character may contain the other; RELIDX — an index returned by a search in x[a:] is relative to a: wherever it (or a sum containing it) indexes or slices x itself, a is part of the sum; XTOTAL — every index and slice in the functions of package xmp reachable from ParseXmp is proved in range by E3 with no credit for ParseXmp's recover frame: a panic at the edge of a look-ahead window turns a well-formed packet into an error (for C01 the same panic is contained; for this property it is a lost value); WINFIT — every look-ahead loop of the XMP reader (Peek(s) with s growing by a constant step) reaches, within the reader's buffer size, a window of at least 1027 bytes: a 1024-byte value with its delimiters is readable before ErrBufferFull ends the growth; ROOTSKIP — readRootTag keeps scanning when ReadSlice reports a full buffer without the start of the root element (bytes before the root element are skipped). FORMDEP — outside the tokenizer the attribute/element form of a property (property.pt) is read only under Name() == Rights or Title, the array properties whose rdf:li items carry attributes of their own; no simple property can be treated differently by form. DATEFALL — xmp.parseDate never reports an error before time.Parse with the plain layout 2006-01-02T15:04:05 (the only one accepting a zoneless value with any number of fractional digits) was tried. SEQEXIT — the loops of readTag and readSeqTags leave only on a callee error or a boolean answer of the tokenizer, never on an integer comparison (an item count). XSRC — the tokenizer look-ahead buffer is filled from the reader the caller passed, never from a length-limited view of it. FLOATW — every strconv.ParseFloat in package xmp whose result is used as a float64 passes bitSize 64 (32 would round a coordinate to float32 precision).")
 	r.Trusted("spec/xmp_props.json (written from the XMP specification)", "bufio.ReadSlice returns ErrBufferFull when the delimiter is not within one buffer")
 	fd := &folder{p: p}
 	ruleRoundTrip(p, r, fd, "NSTBL", "xmp/xmpns", "Namespace", "String", "IdentifyNamespace", true)
@@ -37,6 +37,8 @@ func checkC13(p *Prog, r *Report) {
 	ruleDateFall(p, r)
 	ruleSeqExit(p, r)
 	ruleXSrc(p, r)
+	ruleFloatWidth(p, r, "FLOATW", "xmp")
+	r.Floor("FLOATW", 1)
 	r.Floor("XSRC", 1)
 	r.Floor("SEQEXIT", 2)
 	r.Floor("DATEFALL", 1)
